@@ -10,8 +10,8 @@ const PER_UNIT: u64 = 16;
 
 pub fn n_units(tier: Tier) -> u64 {
     match tier {
-        Tier::Quick => 512,
-        Tier::Thorough => 16384,
+        Tier::Quick => 4096,
+        Tier::Thorough => 65536,
     }
 }
 
